@@ -344,3 +344,84 @@ func TestSingleBitFlips(t *testing.T) {
 	r = run(Case{Lic: 1, Key: KeySpec{Perm: security.AllowReadWrite, Target: "a/", Expiry: "past", Salt: 5}, Other: KeySpec{Perm: security.AllowReadWrite, Target: "a/", Expiry: "past", Salt: 5}, Mod: Mod{Kind: "dup", Wide: true, I: 0, J: 2}})
 	vkit.Probe("C12-ecb-block-rearrange-v1", r.Fail != "" && r.Finding == "C12-ecb-block-rearrange-v1", r.Fail)
 }
+
+// TestSpliceIssuedKeys: the same block-splice modification, but on keys issued by the broker's own key generation
+// (salts chosen by the broker, not by the harness). Per-key random salts are what keeps cipher blocks of different
+// keys from being interchangeable under v1; pairs that happen to share a salt (2^-15) are the listed finding and are
+// skipped - unless they are frequent, which means the salts are not per-key random.
+func TestSpliceIssuedKeys(t *testing.T) {
+	n := vkit.N(300)
+	for v := 1; v <= 3; v++ {
+		e := getEnv(v)
+		kg := e.b.S.VerifKeygen()
+		equalSalt := 0
+		for i := 0; i < n; i++ {
+			a, err1 := kg.CreateKey(e.b.Master, "pub/", security.AllowReadWrite, time.Unix(0, 0))
+			b, err2 := kg.CreateKey(e.b.Master, "priv/", security.AllowRead, time.Unix(0, 0))
+			if err1 != nil || err2 != nil {
+				t.Fatalf("CreateKey: %v %v", err1, err2)
+			}
+			ka, _ := kg.DecryptKey(a)
+			kb, _ := kg.DecryptKey(b)
+			if ka.Salt() == kb.Salt() {
+				equalSalt++
+				continue
+			}
+			base := granted2(e, a, b)
+			for blk := 0; blk < 3; blk++ {
+				for dir := 0; dir < 2; dir++ {
+					src, dst := a, b
+					if dir == 1 {
+						src, dst = b, a
+					}
+					mod := apply(Mod{Kind: "splice", I: blk}, dst, src)
+					c := map[string]interface{}{"license": v, "block": blk, "into": []string{"priv-read-key", "pub-rw-key"}[dir], "pair": i}
+					var gained []string
+					for k := range grantedOn(e, mod) {
+						if !base[k] {
+							gained = append(gained, k)
+						}
+					}
+					if len(gained) > 0 {
+						if v >= 2 { // stream ciphers: listed malleability findings cover it
+							vkit.Label("finding-hit-issued-splice-v"+fmt.Sprint(v), 1)
+							continue
+						}
+						sort.Strings(gained)
+						vkit.ReportFailure(t.Name(), c, fmt.Sprintf("license v%d: cipher block %d of one broker-issued key copied into another broker-issued key (salts %d / %d) gains %v", v, blk, ka.Salt(), kb.Salt(), gained), "")
+						t.Fatalf("issued-key splice gains %v", gained)
+					}
+					vkit.Record(t.Name(), c, vkit.OK(true, "issued-key-splice"))
+				}
+			}
+		}
+		if equalSalt > 3 {
+			c := map[string]interface{}{"license": v, "pairs": n, "equal-salt-pairs": equalSalt}
+			vkit.ReportFailure(t.Name(), c, fmt.Sprintf("license v%d: %d of %d pairs of keys issued by the broker carry the same salt: salts are not per-key random, so cipher blocks of different keys are interchangeable", v, equalSalt, n), "")
+			t.Fatalf("salts not random")
+		}
+	}
+}
+
+var spliceProbe = []string{"pub/", "priv/", "a/"}
+
+func grantedOn(e *env, k string) map[string]bool {
+	g := map[string]bool{}
+	for _, ch := range spliceProbe {
+		c := security.ParseChannel([]byte(k + "/" + ch))
+		for _, p := range probePerms {
+			if _, _, ok := e.b.S.Authorize(c, p); ok {
+				g[fmt.Sprintf("%s:%08b", ch, p)] = true
+			}
+		}
+	}
+	return g
+}
+
+func granted2(e *env, a, b string) map[string]bool {
+	g := grantedOn(e, a)
+	for k := range grantedOn(e, b) {
+		g[k] = true
+	}
+	return g
+}
